@@ -50,22 +50,28 @@ def run(tier, replay=None):
         dlines = [l for l in open(os.path.join(ck.work, "cases_decode.txt")).read().splitlines() if l.strip()]
         if ck.coq_ok:
             dmism = eval_chunked(ck, dlines, hdr, "N * tenv * list edecl * list dstep * dobs", "decode_mismatches", "decode")
+        tmism = None
+        tlines = [l for l in open(os.path.join(ck.work, "cases_table.txt")).read().splitlines() if l.strip()]
+        if ck.coq_ok:
+            tmism = eval_chunked(ck, tlines, hdr, "N * levels * list (string * nat * ekind)", "table_mismatches", "table")
+        if tmism:
+            dmism = (dmism or []) + tmism
     if not ck.coq_ok:
         if not ck.violations:
             ck.unproved("the ErrTransport development no longer checks: " + ck.coq_error,
                         {"broken": "coq/ErrTransport build or case evaluation", "detail": ck.coq_error})
     elif (mism or dmism) and not ck.violations:
         bad = (mism or []) + (dmism or [])
-        first = dict(res["cases"][bad[0]]) if bad[0] < len(res["cases"]) else {"case_index": bad[0]}
+        first = dict(res["cases"][bad[0]]) if bad[0] < len(res["cases"]) else {"error_table_case": bad[0], "line": [l for l in tlines if l.startswith("(%d%%N" % bad[0])][:1]}
         if first.get("key"):
             first["design"] = (extra0.get("designs") or {}).get(first["key"])
-        ck.unproved("correspondence ErrTransport.encode_error / decode_error / handler vs the generated server and client broke on %d error exchange(s) and %d request-decoding failure(s); the property's own laws held on every case explored" % (len(mism or []), len(dmism or [])),
+        ck.unproved("correspondence ErrTransport.encode_error / decode_error / handler / effective_error_table vs the generated server and client broke on %d error exchange(s) and %d request-decoding failure(s) or error table(s); the property's own laws held on every case explored" % (len(mism or []), len(dmism or [])),
                     {"broken": "correspondence check_case (model response and client result = observed)",
                      "first_disagreeing_case": first, "mismatching_case_indexes": bad[:50]})
     extra = res.get("extra") or {}
     cov = {"evaluations": res["evaluations"], "distinct_nontrivial": res["distinct_nontrivial"], "rule": res["rule"],
            "samples": res["samples"], "distribution": res["distribution"],
-           "model_cases": (len(lines) + len(dlines)) if ck.coq_ok else None,
+           "model_cases": (len(lines) + len(dlines) + len(tlines)) if ck.coq_ok else None,
            "model_mismatches": (len(mism or []) + len(dmism or [])) if ck.coq_ok else None,
            "exhaustive": False}
     for k in ("driver_error", "last_build_error", "last_generate_error", "last_setup_err"):
